@@ -299,6 +299,32 @@ def destWrite (lhs : CExpr) (v : ILPure) : Except String ILEffect :=
       .ok (.writeReg "bundle" { opvar := opvarOf n k, deref := deref } v)
   | _ => .error "assignment target"
 
+/-- `assignment_expr` for a source that is already compiled: returns the effect and the source it stores. -/
+def compileAssign (env : CEnv) (lhs : CExpr) (op : String) (ce : CE) : Except String (ILEffect × CE) := do
+  let cd ← compileExpr env lhs
+  let ce := if op == "<<=" || op == ">>=" then ce
+            else (if cd.ty.eqv ce.ty then ce else initACast env.cfg cd.ty ce)
+  let src ← (match op with
+    | "=" => .ok ce
+    | "+=" | "-=" | "*=" =>
+        let a := promotionCast env.cfg cd
+        let b := promotionCast env.cfg ce
+        let o : BinOp := if op == "+=" then .add else if op == "-=" then .sub else .mul
+        .ok { il := .bin o a.il b.il, ty := a.ty, kind := .plain }
+    | "&=" | "|=" | "^=" =>
+        let o : BinOp := if op == "&=" then .logand else if op == "|=" then .logor else .logxor
+        .ok { il := .bin o cd.il ce.il, ty := cd.ty, kind := .plain }
+    | "<<=" | ">>=" =>
+        let a := promotionCast env.cfg cd
+        let b := promotionCast env.cfg ce
+        let o : BinOp := if op == "<<=" then .shiftl0 else if a.ty.signed then .shiftra else .shiftr0
+        .ok { il := .bin o a.il b.il, ty := a.ty, kind := .plain }
+    | _ => .error s!"assignment operator {op} not modelled" : Except String CE)
+  let src := if env.cfg.compoundNoConvertBack || op == "=" then src
+             else (if src.ty.eqv cd.ty then src else initACast env.cfg cd.ty src)
+  let eff ← destWrite lhs src.il
+  .ok (eff, src)
+
 mutual
 def compileStmt (env : CEnv) (st : TSt) : CStmt → Except String (ILEffect × TSt)
   | .decl _ _ none => .ok (.empty, st)
@@ -309,31 +335,17 @@ def compileStmt (env : CEnv) (st : TSt) : CStmt → Except String (ILEffect × T
       .ok (.setl n ce.il, st)
   | .assign lhs op e => do
       let st := addImms st (immsOfExpr lhs ++ immsOfExpr e)
-      let cd ← compileExpr env lhs
       let ce ← compileExpr env e
-      -- the destination as a pure (for compound operators): read of the target
-      let ce := if op == "<<=" || op == ">>=" then ce
-                else (if cd.ty.eqv ce.ty then ce else initACast env.cfg cd.ty ce)
-      let src ← (match op with
-        | "=" => .ok ce
-        | "+=" | "-=" | "*=" =>
-            let a := promotionCast env.cfg cd
-            let b := promotionCast env.cfg ce
-            let o : BinOp := if op == "+=" then .add else if op == "-=" then .sub else .mul
-            .ok { il := .bin o a.il b.il, ty := a.ty, kind := .plain }
-        | "&=" | "|=" | "^=" =>
-            let o : BinOp := if op == "&=" then .logand else if op == "|=" then .logor else .logxor
-            .ok { il := .bin o cd.il ce.il, ty := cd.ty, kind := .plain }
-        | "<<=" | ">>=" =>
-            let a := promotionCast env.cfg cd
-            let b := promotionCast env.cfg ce
-            let o : BinOp := if op == "<<=" then .shiftl0 else if a.ty.signed then .shiftra else .shiftr0
-            .ok { il := .bin o a.il b.il, ty := a.ty, kind := .plain }
-        | _ => .error s!"assignment operator {op} not modelled" : Except String CE)
-      let src := if env.cfg.compoundNoConvertBack || op == "=" then src
-                 else (if src.ty.eqv cd.ty then src else initACast env.cfg cd.ty src)
-      let eff ← destWrite lhs src.il
+      let (eff, _) ← compileAssign env lhs op ce
       .ok (eff, st)
+  | .chain lhs1 lhs2 op2 e => do
+      -- `a = b op= e`: the inner assignment is built first; the outer one takes the inner's (already converted /
+      -- operator-expanded) source, and the result is Sequence([outer, inner])
+      let st := addImms st (immsOfExpr lhs1 ++ immsOfExpr lhs2 ++ immsOfExpr e)
+      let ce ← compileExpr env e
+      let (effInner, srcInner) ← compileAssign env lhs2 op2 ce
+      let (effOuter, _) ← compileAssign env lhs1 "=" srcInner
+      .ok (mkSeq [effOuter, effInner], st)
   | .store w e => do
       let st := addImms st (immsOfExpr e)
       let ce ← compileExpr env e
@@ -353,19 +365,25 @@ def compileStmt (env : CEnv) (st : TSt) : CStmt → Except String (ILEffect × T
       | some e => do
           let (es, st) ← compileStmts env st e
           .ok (.branch (condIL env.cfg cc) (mkSeq ts) (mkSeq es), st)
-  | .for_ v cond body => do
+  | .for_ v cond step body => do
       -- init `v = 0`: v is a special identifier typed ut32, the literal st32
       let init : ILEffect := .setl v (.cast 32 .bfalse (.const true 32 0))
       let st := addImms st (immsOfExpr cond)
       let cc ← compileExpr env cond
-      -- the step `v++` is resolved before the body's callbacks run? No: Lark transforms children left to
-      -- right: init, cond, step, body — the step's temporary is numbered before the body's hybrids
-      let tmp := s!"h_tmp{st.hyb}"
-      let st := { st with hyb := st.hyb + 1 }
-      let (bs, st) ← compileStmts env st body
-      let stepSeq : ILEffect := .seqn [.setl tmp (.varl v), .setl v (.inc (.varl v) 32)]
-      let compound := ILEffect.seqn [mkSeq bs, stepSeq]
-      .ok (.seqn [init, .repeat_ (condIL env.cfg cc) compound], st)
+      if step == 0 then
+        -- `v++`: Lark transforms children left to right (init, cond, step, body): the step's temporary is
+        -- numbered before the body's hybrids; its effect is appended after the body (SEQ_THEN_HYB)
+        let tmp := s!"h_tmp{st.hyb}"
+        let st := { st with hyb := st.hyb + 1 }
+        let (bs, st) ← compileStmts env st body
+        let stepSeq : ILEffect := .seqn [.setl tmp (.varl v), .setl v (.inc (.varl v) 32)]
+        let compound := ILEffect.seqn [mkSeq bs, stepSeq]
+        .ok (.seqn [init, .repeat_ (condIL env.cfg cc) compound], st)
+      else
+        -- `v += k`: an ordinary assignment effect, last member of the loop sequence
+        let (stepEff, _) ← compileAssign env (.var v utT) "+=" { il := numberIL ⟨true, 32, 1⟩ step, ty := ⟨true, 32, 1⟩, kind := .lit step }
+        let (bs, st) ← compileStmts env st body
+        .ok (.seqn [init, .repeat_ (condIL env.cfg cc) (mkSeq (bs ++ [stepEff]))], st)
   | .jump e => do
       let st := addImms st (immsOfExpr e)
       let ce ← compileExpr env e
@@ -391,7 +409,10 @@ mutual
 def assignedOf : CStmt → List String
   | .assign (.reg n k _) _ _ => [opvarOf n k]
   | .ite _ t e => assignedOfList t ++ (match e with | some e => assignedOfList e | none => [])
-  | .for_ _ _ b => assignedOfList b
+  | .for_ _ _ _ b => assignedOfList b
+  | .chain (.reg n1 k1 _) (.reg n2 k2 _) _ _ => [opvarOf n1 k1, opvarOf n2 k2]
+  | .chain (.reg n1 k1 _) _ _ _ => [opvarOf n1 k1]
+  | .chain _ (.reg n2 k2 _) _ _ => [opvarOf n2 k2]
   | _ => []
 def assignedOfList : List CStmt → List String
   | [] => []
